@@ -43,6 +43,7 @@ def record (t : Trace) : Option String := do
     else if n == "seq_scaling_matrix_present_flag" ∧ v = 1 then [s!"{n}={v}", "lists=" ++ scalingLists t]
     else if n == "vui_parameters_present_flag" ∧ v = 1 then [s!"{n}={v}", s!"sar={sw}:{sh}"]
     else if n == "seq_parameter_set_id" then [s!"{n}={v.toNat % 2 ^ 32}"]
+    else if n == "chroma_format_idc" then [s!"{n}={v.toNat % 256}"]
     else [s!"{n}={v}"]
   some (" ".intercalate parts ++ s!" dims={w}x{h}")
 
